@@ -4,13 +4,13 @@
 
 use serde_json::json;
 use vcore::{Run, Tier};
-use vindex::bt::{self, Bt, BtCfg, BtOp, Key};
-use vindex::engine::{self, Explore, ExploreOut, HOp, Mode, Start};
+use vindex::bt::{self, Bt, BtCfg, BtOp, Key, Origin};
+use vindex::engine::{self, Explore, ExploreOut, HOp, Mode};
 
 struct Job {
     key_type: &'static str,
     unique: bool,
-    start: Option<usize>, // index into legacy_seeds
+    start: Origin,
     alphabet: Vec<HOp<BtOp>>,
     depth: usize,
     dedup: bool,
@@ -24,13 +24,7 @@ fn run_job<K: Key>(run: &mut Run, job: &Job, deep_depth: usize, budget_s: f64) -
         unique: job.unique,
         bucket_overload_size: 64,
     };
-    let (start, start_label) = match job.start {
-        None => (Start::Fresh, "fresh".to_string()),
-        Some(i) => {
-            let (name, seed) = bt::legacy_seeds().swap_remove(i);
-            (Start::Legacy(seed), name.to_string())
-        }
-    };
+    let (start, start_label) = bt::origin_start(job.start);
     let x = Explore::<Bt<K>> {
         cfg,
         start,
@@ -40,6 +34,7 @@ fn run_job<K: Key>(run: &mut Run, job: &Job, deep_depth: usize, budget_s: f64) -
         dedup: job.dedup,
         mode: Mode::Hist,
         deep_depth,
+        past_known: false,
     };
     engine::explore(run, "hist", &x, budget_s * 0.6, budget_s)
 }
@@ -63,31 +58,51 @@ fn main() {
     let medium = bt::alphabet(2, true, true);
     let small = bt::alphabet(2, true, false);
     let growth = bt::alphabet_growth();
+    use Origin::*;
     let jobs: Vec<Job> = match run.tier {
         Tier::Quick => vec![
             // cross-check of the dedup key: everything to depth 2 without pruning
-            Job { key_type: "String", unique: false, start: None, alphabet: full.clone(), depth: 2, dedup: false, share: 0.05 },
-            Job { key_type: "String", unique: false, start: None, alphabet: full.clone(), depth: 3, dedup: true, share: 0.15 },
-            Job { key_type: "String", unique: false, start: None, alphabet: medium.clone(), depth: 4, dedup: true, share: 0.30 },
-            Job { key_type: "String", unique: true, start: None, alphabet: full.clone(), depth: 3, dedup: true, share: 0.10 },
-            Job { key_type: "u64", unique: false, start: None, alphabet: full.clone(), depth: 3, dedup: true, share: 0.15 },
-            Job { key_type: "u64", unique: true, start: None, alphabet: small.clone(), depth: 3, dedup: true, share: 0.05 },
-            Job { key_type: "String", unique: false, start: Some(1), alphabet: small.clone(), depth: 2, dedup: true, share: 0.05 },
-            Job { key_type: "String", unique: false, start: Some(2), alphabet: small.clone(), depth: 2, dedup: true, share: 0.05 },
-            Job { key_type: "String", unique: false, start: None, alphabet: growth.clone(), depth: 8, dedup: true, share: 0.05 },
-            Job { key_type: "u64", unique: false, start: None, alphabet: growth.clone(), depth: 8, dedup: true, share: 0.05 },
+            Job { key_type: "String", unique: false, start: Fresh, alphabet: full.clone(), depth: 2, dedup: false, share: 0.05 },
+            Job { key_type: "String", unique: false, start: Fresh, alphabet: full.clone(), depth: 3, dedup: true, share: 0.15 },
+            Job { key_type: "String", unique: false, start: Fresh, alphabet: medium.clone(), depth: 4, dedup: true, share: 0.30 },
+            Job { key_type: "String", unique: true, start: Fresh, alphabet: full.clone(), depth: 3, dedup: true, share: 0.10 },
+            Job { key_type: "u64", unique: false, start: Fresh, alphabet: full.clone(), depth: 3, dedup: true, share: 0.15 },
+            Job { key_type: "u64", unique: true, start: Fresh, alphabet: small.clone(), depth: 3, dedup: true, share: 0.05 },
+            Job { key_type: "String", unique: false, start: Legacy(1), alphabet: small.clone(), depth: 2, dedup: true, share: 0.05 },
+            Job { key_type: "String", unique: false, start: Legacy(2), alphabet: small.clone(), depth: 2, dedup: true, share: 0.05 },
+            Job { key_type: "String", unique: false, start: Fresh, alphabet: growth.clone(), depth: 8, dedup: true, share: 0.05 },
+            Job { key_type: "u64", unique: false, start: Fresh, alphabet: growth.clone(), depth: 8, dedup: true, share: 0.05 },
+            // multi-bucket start states (ops of the prelude are not enumerated)
+            Job { key_type: "String", unique: false, start: Prelude(0), alphabet: medium.clone(), depth: 3, dedup: true, share: 0.05 },
+            Job { key_type: "String", unique: false, start: Prelude(1), alphabet: full.clone(), depth: 2, dedup: true, share: 0.05 },
+            Job { key_type: "String", unique: false, start: Prelude(2), alphabet: full.clone(), depth: 2, dedup: true, share: 0.05 },
+            Job { key_type: "u64", unique: false, start: Prelude(2), alphabet: full.clone(), depth: 2, dedup: true, share: 0.05 },
+            Job { key_type: "String", unique: true, start: Prelude(3), alphabet: full.clone(), depth: 2, dedup: true, share: 0.05 },
+            // hand-made legacy layouts with the leftovers the loader documents
+            Job { key_type: "String", unique: false, start: Fabricated(0), alphabet: small.clone(), depth: 2, dedup: true, share: 0.03 },
+            Job { key_type: "String", unique: false, start: Fabricated(1), alphabet: small.clone(), depth: 2, dedup: true, share: 0.03 },
+            Job { key_type: "String", unique: false, start: Fabricated(2), alphabet: small.clone(), depth: 2, dedup: true, share: 0.03 },
+            Job { key_type: "u64", unique: false, start: Fabricated(0), alphabet: small.clone(), depth: 2, dedup: true, share: 0.03 },
         ],
         Tier::Thorough => vec![
-            Job { key_type: "String", unique: false, start: None, alphabet: full.clone(), depth: 3, dedup: false, share: 0.05 },
-            Job { key_type: "String", unique: false, start: None, alphabet: full.clone(), depth: 8, dedup: true, share: 0.40 },
-            Job { key_type: "String", unique: true, start: None, alphabet: full.clone(), depth: 8, dedup: true, share: 0.15 },
-            Job { key_type: "u64", unique: false, start: None, alphabet: full.clone(), depth: 8, dedup: true, share: 0.15 },
-            Job { key_type: "u64", unique: true, start: None, alphabet: full.clone(), depth: 8, dedup: true, share: 0.07 },
-            Job { key_type: "String", unique: false, start: Some(0), alphabet: full.clone(), depth: 4, dedup: true, share: 0.04 },
-            Job { key_type: "String", unique: false, start: Some(1), alphabet: full.clone(), depth: 5, dedup: true, share: 0.07 },
-            Job { key_type: "String", unique: false, start: Some(2), alphabet: full.clone(), depth: 5, dedup: true, share: 0.07 },
-            Job { key_type: "String", unique: false, start: None, alphabet: growth.clone(), depth: 12, dedup: true, share: 0.03 },
-            Job { key_type: "u64", unique: false, start: None, alphabet: growth.clone(), depth: 12, dedup: true, share: 0.03 },
+            Job { key_type: "String", unique: false, start: Fresh, alphabet: full.clone(), depth: 3, dedup: false, share: 0.05 },
+            Job { key_type: "String", unique: false, start: Fresh, alphabet: full.clone(), depth: 8, dedup: true, share: 0.40 },
+            Job { key_type: "String", unique: true, start: Fresh, alphabet: full.clone(), depth: 8, dedup: true, share: 0.15 },
+            Job { key_type: "u64", unique: false, start: Fresh, alphabet: full.clone(), depth: 8, dedup: true, share: 0.15 },
+            Job { key_type: "u64", unique: true, start: Fresh, alphabet: full.clone(), depth: 8, dedup: true, share: 0.07 },
+            Job { key_type: "String", unique: false, start: Legacy(0), alphabet: full.clone(), depth: 4, dedup: true, share: 0.04 },
+            Job { key_type: "String", unique: false, start: Legacy(1), alphabet: full.clone(), depth: 5, dedup: true, share: 0.07 },
+            Job { key_type: "String", unique: false, start: Legacy(2), alphabet: full.clone(), depth: 5, dedup: true, share: 0.07 },
+            Job { key_type: "String", unique: false, start: Fresh, alphabet: growth.clone(), depth: 12, dedup: true, share: 0.03 },
+            Job { key_type: "u64", unique: false, start: Fresh, alphabet: growth.clone(), depth: 12, dedup: true, share: 0.03 },
+            Job { key_type: "String", unique: false, start: Prelude(0), alphabet: full.clone(), depth: 5, dedup: true, share: 0.04 },
+            Job { key_type: "String", unique: false, start: Prelude(2), alphabet: full.clone(), depth: 5, dedup: true, share: 0.04 },
+            Job { key_type: "u64", unique: false, start: Prelude(2), alphabet: full.clone(), depth: 5, dedup: true, share: 0.03 },
+            Job { key_type: "String", unique: true, start: Prelude(3), alphabet: full.clone(), depth: 5, dedup: true, share: 0.03 },
+            Job { key_type: "String", unique: false, start: Fabricated(0), alphabet: full.clone(), depth: 4, dedup: true, share: 0.02 },
+            Job { key_type: "String", unique: false, start: Fabricated(1), alphabet: full.clone(), depth: 4, dedup: true, share: 0.02 },
+            Job { key_type: "String", unique: false, start: Fabricated(2), alphabet: full.clone(), depth: 4, dedup: true, share: 0.02 },
+            Job { key_type: "u64", unique: false, start: Fabricated(0), alphabet: full.clone(), depth: 4, dedup: true, share: 0.02 },
         ],
     };
 
@@ -120,6 +135,10 @@ fn main() {
     }
     run.set("runs", json!(outs));
     run.set(
+        "nested_range_trees",
+        json!({"trees": bt::nested_trees::<String>().len(), "key_sets_checked": bt::NESTED_KEYSETS.load(std::sync::atomic::Ordering::Relaxed)}),
+    );
+    run.set(
         "range_trees_per_state",
         json!({"String": bt::tree_count::<String>(deep_depth), "u64": bt::tree_count::<u64>(deep_depth), "depth": deep_depth}),
     );
@@ -140,6 +159,20 @@ fn main() {
          of depth 3 [Not, binary And, binary Or over every depth<=2 tree] over 9 leaves), each in both directions with the callback \
          stopping at every position",
     );
+    run.rule(
+        "multi-bucket start states (prelude ops executed, not enumerated): every key owned by ids 1 and 2, the long key and key a also \
+         by id 3 (postings that can shrink without becoming empty) as inserted / flushed / shrunk after the flush + compacted + \
+         flushed; a unique variant; from these depth 3 over 45 ops and depth 2 over all 65 ops (quick), so that flush -> remove_array / \
+         batch_update that only shrinks postings -> flush + load, and compaction -> flush -> two further mutations -> flush + load are \
+         inside the enumerated space | hand-made legacy manifest-less layouts (a real flush rewritten): the same key in two bucket \
+         objects with different ids (the higher bucket is the newer state), an empty posting above an older copy, an empty posting \
+         alone (tombstones); model = the two documented loader rules; from each depth 2 (quick) / 4 (thorough) incl. removing the \
+         key, flush, load | nested range trees in the quick tier: 2018 trees of depth 3 (Not over every depth-2 composite of 5 \
+         leaves; And/Or of composite x leaf in both operand orders; And/Or of negation x composite; ternary And with a nested \
+         operand), both directions, callback stopping at every position, once per distinct KEY SET of each key type x uniqueness \
+         (16 key sets each)",
+    );
+    run.assume("which keys a range tree selects is a function of the ordered key set only (range_keys / range_key_matches_query never read postings); the nested battery is therefore run per key set, the first model state that shows it supplies the postings");
     run.assume("range/prefix query evaluation reads only the key set and the postings (code reading: range_query_inner/range_keys), so the tree battery is run once per distinct model state, not once per history");
     run.assume("dedup key does not see in-memory bucket size estimates, dirty_version/posting version counters or posting id order; a no-dedup run to a smaller depth cross-checks it");
     run.assume("single-threaded histories only (thread interleavings are the `thread` part); flush never overlaps a mutation, as the crate documents");
